@@ -368,7 +368,7 @@ PROPS['C11'] = {
             'only when every member of S has been inside quiescent_state() or offline since the registration; the callback frees its node (ASan sees any later touch by the '
             'library); every operation leaves the domain mutex free and never locks it twice; after the fair tail every registered callback has run. Non-trivial: a barrier '
             'was registered while another was pending, or an agent joined or left while a barrier was pending; distinct = hash of the decoded history.',
-    'required_tags': ['join-while-barrier-pending', 'leave-while-barrier-pending', 'two-barriers-pending', 'quiescent_barrier', 'tail-rounds-2', 'has-barrier', 'third-agent-registered-barriers', 'several-barriers', 'switches-20+'],
+    'required_tags': ['join-while-barrier-pending', 'leave-while-barrier-pending', 'two-barriers-pending', 'quiescent_barrier', 'tail-rounds-2', 'has-barrier', 'third-agent-registered-barriers', 'several-barriers', 'switches-20+', 'quiescent_barrier-concurrent'],
     'min_cases': {'quick': 30000, 'thorough': 500000},
     'level_text': 'generated agent histories against a grace-period oracle and a bounded fair-tail liveness horizon; sequentially consistent schedules only; held on everything generated',
     'level_note': 'liveness is "within 8 fair rounds"; histories in which offline() hits the documented TODO assertion (agent with a deferred grace period) are discarded and counted; at least one agent is online during the tail',
